@@ -309,7 +309,7 @@ func decExchange(op []int64) (exch, bool) {
 			pos += 3
 			switch e.t {
 			case 0:
-				if !((e.a >= 0 && e.a <= 9) || (e.a == 10 && e.b == 0) || (e.a == 11 && e.b >= 0)) || e.b < 0 {
+				if !((e.a >= 0 && e.a <= 9) || (e.a == 10 && (e.b == 0 || x.method == 2)) || (e.a == 11 && e.b >= 0)) || e.b < 0 {
 					return x, false
 				}
 			case 1:
@@ -965,6 +965,14 @@ func (c *bufComp) Run(h *hlib.History) ([]hlib.Mon, bool) {
 				if status != last.code {
 					hit("C07", fmt.Sprintf("client got status %d, the final attempt (%d) produced %d", status, wantInv, last.code))
 				}
+				// the answer to a HEAD request announces the length the final attempt announced (net/http sends a handler's
+				// Content-Length of a HEAD response as it is)
+				if v, ok := last.hdr[10]; ok && x.method == 2 && last.code >= 200 && last.code != 204 && last.code != 304 && status == last.code && x.cut < 0 {
+					hlib.Count("head_responses_announcing_a_length", 1)
+					if got := respHdr.Get("Content-Length"); got != strconv.FormatInt(v, 10) {
+						hit("C07", fmt.Sprintf("HEAD: the final attempt (%d) announced Content-Length %d, the client got %q", wantInv, v, got))
+					}
+				}
 				if fmt.Sprint(respPairs) != fmt.Sprint(wantPairs) {
 					hit("C07", fmt.Sprintf("client got headers %v, the final attempt (%d) produced %v", respPairs, wantInv, wantPairs))
 				}
@@ -1246,6 +1254,10 @@ func (c *bufComp) Gen(rng *rand.Rand, idx int, tier string, targeted bool) hlib.
 			}
 			if refuse { // the handler tries to take the connection over first (a websocket upgrader), then answers normally
 				s = append([]ev{{6, 0, 0}}, s...)
+			}
+			if method == 2 && rng.Intn(2) == 0 {
+				// a handler that serves GET and HEAD alike announces the length of what it would send (and may write it)
+				s = append([]ev{{0, 10, hlib.Pick(rng, 0, 18, 4096)}}, s...)
 			}
 			op = append(op, int64(len(s)))
 			for _, e := range s {
